@@ -1,6 +1,7 @@
 package main
 
 import (
+	"os"
 	"fmt"
 	"go/token"
 	"go/types"
@@ -281,6 +282,151 @@ func ruleUnsubPrecond(c *Ctx) {
 			c.check(p.guardedBy(call, enough) != nil && p.guardedBy(call, found) != nil && dc && d && isParam, fnName(fn), "unsubscribe removes exactly the requested count, only if that many direct subscriptions are held", p.InstrPos(call),
 				"dominated by the lookup and by !(direct < count) with the same count", "an unsubscribe can succeed without enough direct subscriptions (negative count) or removes a different count than it checked")
 		}
+	}
+	// the direct count is never lowered by more than is held: a release that arrives after the count was
+	// already taken (access denied while the request was pending: unsubscribeDirect released everything) must
+	// not drive it negative — a negative count makes the next subscribe unreleasable
+	for _, st := range p.stores[fDirect] {
+		b, ok := st.Val.(*ssa.BinOp)
+		if !ok || b.Op != token.SUB {
+			continue
+		}
+		if f, _ := fieldLoad(b.X); f != fDirect {
+			continue
+		}
+		c.inst(1)
+		bounded := func(y ssa.Value, at ssa.Instruction) bool {
+			if f, _ := fieldLoad(y); f == fDirect {
+				return true // lowered by exactly what is held
+			}
+			return p.guardedBy(at, func(i *ssa.If) (bool, bool) {
+				cb, ok := i.Cond.(*ssa.BinOp)
+				if !ok {
+					return false, false
+				}
+				fx, _ := fieldLoad(cb.X)
+				fy, _ := fieldLoad(cb.Y)
+				switch {
+				case fx == fDirect && cb.Y == y: // direct OP y
+					switch cb.Op {
+					case token.GEQ:
+						return true, true
+					case token.LSS:
+						return false, true
+					}
+				case fy == fDirect && cb.X == y: // y OP direct
+					switch cb.Op {
+					case token.LEQ:
+						return true, true
+					case token.GTR:
+						return false, true
+					}
+				}
+				return false, false
+			}) != nil
+		}
+		ok2 := false
+		if ph, isPhi := b.Y.(*ssa.Phi); isPhi {
+			ok2 = true
+			for k, e := range ph.Edges {
+				pred := ph.Block().Preds[k]
+				if !bounded(e, pred.Instrs[len(pred.Instrs)-1]) {
+					// the edge may come straight from the test's own block
+					okEdge := false
+					if i := blockIf(pred); i != nil {
+						if cb, isB := i.Cond.(*ssa.BinOp); isB {
+							fx, _ := fieldLoad(cb.X)
+							fy, _ := fieldLoad(cb.Y)
+							succTrue := pred.Succs[0] == ph.Block()
+							switch {
+							case fx == fDirect && cb.Y == e:
+								okEdge = (cb.Op == token.GEQ && succTrue) || (cb.Op == token.LSS && !succTrue)
+							case fy == fDirect && cb.X == e:
+								okEdge = (cb.Op == token.LEQ && succTrue) || (cb.Op == token.GTR && !succTrue)
+							}
+						}
+					}
+					if !okEdge {
+						ok2 = false
+					}
+				}
+			}
+		} else {
+			ok2 = bounded(b.Y, st)
+		}
+		c.check(ok2, fnName(st.Parent()), "the direct count is lowered by no more than is held", p.InstrPos(st), "subtrahend is the count itself, or bounded by a test against it",
+			"a late release (the request's own error path after unsubscribeDirect already took every direct count) drives the direct count negative while an indirect reference keeps the subscription alive: the next successful subscribe brings it to 0 and can never be unsubscribed")
+	}
+	// ... and refused only for the listed reasons: connection going away, no such subscription, fewer direct
+	// subscriptions than asked for. Any other refusal leaves a direct subscription the client can never release.
+	if fn := p.Fn("(*server.wsConn).UnsubscribeByRID"); fn != nil {
+		c.inst(1)
+		fDisp := p.Field("server.wsConn.disposing")
+		sp := &Spec{}
+		sp.Classify = func(t *Tracer, fr *Frame, in ssa.Instruction) []Ev {
+			if r, ok := in.(*ssa.Return); ok && fr == t.RootFr && len(r.Results) == 1 {
+				if b, isC := constBool(t.Resolve(fr, r.Results[0]).V); isC {
+					if b {
+						return []Ev{{Kind: "accept"}}
+					}
+					return []Ev{{Kind: "refuse"}}
+				}
+				return []Ev{{Kind: "return:?"}}
+			}
+			return nil
+		}
+		sp.Branch = func(t *Tracer, fr *Frame, i *ssa.If, dir bool) []Ev {
+			if fr != t.RootFr && !(fr.Parent == t.RootFr && isSmallPredicate(fr.Fn)) {
+				return nil // decisions inside removeCount and the collector are not refusals
+			}
+			v := i.Cond
+			neg := false
+			if u, ok := v.(*ssa.UnOp); ok && u.Op == token.NOT {
+				v, neg = u.X, true
+			}
+			if f, _ := fieldLoad(v); f != nil && f == fDisp {
+				return []Ev{{Kind: "listed"}}
+			}
+			if e, ok := v.(*ssa.Extract); ok && e.Index == 1 {
+				if _, ok := e.Tuple.(*ssa.Lookup); ok {
+					return []Ev{{Kind: "listed"}}
+				}
+			}
+			_ = neg
+			if b, ok := v.(*ssa.BinOp); ok {
+				if f, _ := fieldLoad(b.X); f == fDirect {
+					return []Ev{{Kind: "listed"}}
+				}
+				if f, _ := fieldLoad(b.Y); f == fDirect {
+					return []Ev{{Kind: "listed"}}
+				}
+			}
+			if t.DecidedInHelper(i) {
+				return nil
+			}
+			return []Ev{{Kind: "other", Note: p.InstrPos(i)}}
+		}
+		tr := runTrace(p, fn, sp)
+		bad := ""
+		for _, path := range tr.Paths {
+			if os.Getenv("RV_DEBUG") != "" {
+				fmt.Println("UNSUB-PATH", tr.FmtPath(path))
+			}
+			if !hasKind(path, "refuse") {
+				continue
+			}
+			// the decision that led to the refusal is the last branch before it
+			last := ""
+			for _, e := range path {
+				if e.Kind == "listed" || e.Kind == "other" {
+					last = e.Kind
+				}
+			}
+			if last == "other" {
+				bad = "an unsubscribe is refused for a reason other than 'connection closing', 'no such subscription' or 'fewer direct subscriptions than asked for': the client keeps a direct subscription it cannot release: " + tr.FmtPath(path)
+			}
+		}
+		c.check(bad == "", fnName(fn), "unsubscribe refused only for the listed reasons", p.Pos(fn.Pos()), fmt.Sprintf("%d paths", len(tr.Paths)), bad)
 	}
 	if fn := p.Fn("(*server.wsConn).addCount"); fn != nil {
 		for _, st := range p.stores[fDirect] {
